@@ -1543,13 +1543,7 @@ impl Checker {
         // The standard library is compiled into the binary. A file that
         // happens to be at std/... next to the importing file is not what
         // the import yields.
-        let main_separator = format!("{}", std::path::MAIN_SEPARATOR);
-        let std_prefix = format!("std{}", main_separator);
-        if path
-            .replace("/", &main_separator)
-            .replace("\\", &main_separator)
-            .starts_with(&std_prefix)
-        {
+        if crate::build::stdlib::is_embedded(path) {
             return Shape::Import(ImportShape::Unresolved(PositionedItem::new(
                 path.into(),
                 pos.clone(),
